@@ -20,6 +20,13 @@
 (*   NextAsIs : the one outcome pymap is believed to produce (a selection  *)
 (*              FROM Outcomes, so a refinement by construction); this is   *)
 (*              the deterministic graph that is replayed on the server.    *)
+(* Store says which backend is modelled: "dict", or maildir in the         *)
+(* Maildir++ layout ("pp") or the filesystem layout ("fs").  The allowed   *)
+(* outcomes are the same for every store except for the names a store      *)
+(* cannot hold (Unstorable: CREATE / RENAME to them may answer NO); Store  *)
+(* otherwise only selects, in NextAsIs, which allowed outcome the backend  *)
+(* is believed to produce, and it scopes the maildir deviations.  A        *)
+(* deviation may end the connection without a tagged answer (r.bye).       *)
 (* `last` is the abstract result of the last command, `probe` what         *)
 (* LIST "" * and LSUB "" * may answer in the current state (derived).      *)
 (* Commands are issued only when last = Null; Forget resets it, so that    *)
@@ -36,7 +43,8 @@ CONSTANTS CreateArgs,   \* names given to CREATE
           InitSets,     \* set of <<set of names that exist, set of subscribed names>>
           MaxMsgs,      \* APPEND is not issued to a mailbox holding MaxMsgs
           MaxLen,       \* RENAME is not issued when it would build a longer name
-          Dev           \* deviations switched on
+          Dev,          \* deviations switched on
+          Store         \* "dict" | "pp" | "fs" (maildir, layouts '++' and 'fs')
 
 VARIABLES mbx,          \* [existing name -> number of messages]
           sub,          \* set of subscribed names
@@ -53,6 +61,13 @@ AllDev == {"StarSkipsNewline", "EndAnchorBeforeTrailingNewline",
            "NewlineEncodedAsAmpersand", "CreateKeepsTrailingDelimiter",
            "RenameInboxMovesInferiors", "LsubOmitsMissingSubscribed",
            "LeadingDelimiterDropped"}
+\* deviations of the maildir backend (both layouts unless the name says Fs)
+MaildirDev == {"MaildirCreateExistingBye", "MaildirMissingSuperiorBye",
+               "MaildirRenameOntoExisting", "MaildirRenameMissingSource",
+               "MaildirRenameInboxRefused", "MaildirLsubOmitsMissingSubscribed",
+               "MaildirSubscriptionNewlineSplit", "MaildirFsLeadingDelimiterAlias",
+               "MaildirFsRenameIntoInferiorBye"}
+Maildir == Store \in {"pp", "fs"}
 
 Norm(a) == IF a = <<"i">> THEN Inbox ELSE a
 Range(s) == {s[k] : k \in 1..Len(s)}
@@ -63,6 +78,29 @@ Inferior(n, f) == IsPrefix(f \o <<SEP>>, n)            \* n strictly below f
 Levels(n)  == {SubSeq(n, 1, k - 1) : k \in {j \in 2..Len(n) : n[j] = SEP}}
 \* levels of hierarchy that are not themselves in E (listed with \Noselect)
 Implied(E) == UNION {Levels(n) : n \in E} \ E
+\* the levels above the direct parent ("a" for "a/b/c")
+DeepLevels(n) == {x \in Levels(n) : \E y \in Levels(n) : Len(y) > Len(x)}
+HasEmptyPart(n) == \/ n[1] = SEP \/ n[Len(n)] = SEP
+                   \/ \E k \in 1..(Len(n) - 1) : n[k] = SEP /\ n[k + 1] = SEP
+\* Names the store cannot hold.  RFC 3501 6.3.3 / 6.3.5: "NO - create failure:
+\* can't create mailbox with that name", "can't rename to mailbox with that
+\* name".  The token "u" is a name part that is concretised, per store, by a
+\* text the store has no place for (a part with a "." under Maildir++, whose
+\* directories are the parts joined by "."; "tmp", a directory of every
+\* maildir, under the filesystem layout, where a part is a path component -
+\* an empty part is none).  The dict backend holds every name.
+Unstorable(n) == /\ Maildir /\ n # <<>>
+                 /\ \/ "u" \in Range(n)
+                    \/ Store = "fs" /\ HasEmptyPart(n)
+\* a subscription file with one name per line: the runs between newlines
+RECURSIVE Pieces(_)
+Pieces(n) ==
+  LET idx == {k \in 1..Len(n) : n[k] = "n"} IN
+  IF n = <<>> THEN {}
+  ELSE IF idx = {} THEN {n}
+  ELSE LET k == CHOOSE k \in idx : \A j \in idx : k <= j IN
+       (IF k = 1 THEN {} ELSE {SubSeq(n, 1, k - 1)}) \cup Pieces(SubSeq(n, k + 1, Len(n)))
+SplitAll(S) == UNION {Pieces(n) : n \in S}
 
 ---------------------------------------------------------------------------
 (* The RFC 3501 section 6.3.8 matcher.  D: matcher deviations in force.    *)
@@ -103,7 +141,7 @@ Canons(ref, pat) ==
 ListDevs == {"StarSkipsNewline", "EndAnchorBeforeTrailingNewline",
              "NewlineEncodedAsAmpersand", "LeadingDelimiterDropped"}
 
-R0(ok, tag, dev) == [ok |-> ok, tag |-> tag, dev |-> dev,
+R0(ok, tag, dev) == [ok |-> ok, tag |-> tag, dev |-> dev, bye |-> FALSE,
                      fresh |-> {}, gone |-> {}, moved |-> {}, app |-> {}]
 
 \* E0: the names listed (mailboxes, or subscriptions); X0: the names that
@@ -138,6 +176,8 @@ ListVariant(E0, X0, lsub, canon, ctag, D) ==
       nosel |-> G(((impl \ (IF lsub THEN {Inbox} ELSE X)) \cap imp) \cup optr)]
 
 HasTok(S, tok) == \E n \in S : tok \in Range(n)
+OmitDev == {"LsubOmitsMissingSubscribed", "MaildirLsubOmitsMissingSubscribed"} \cap Dev
+NLSplit == "MaildirSubscriptionNewlineSplit"
 
 \* all allowed answers to LIST/LSUB ref pat in the state <<m, s>>
 ListVariants(m, s, lsub, ref, pat) ==
@@ -149,17 +189,23 @@ ListVariants(m, s, lsub, ref, pat) ==
                     "EndAnchorBeforeTrailingNewline", "NewlineEncodedAsAmpersand"})
                \cup (IF \E n \in EI : n[1] = SEP THEN {}
                      ELSE {"LeadingDelimiterDropped"}))
-      dm == IF lsub /\ "LsubOmitsMissingSubscribed" \in Dev /\ ~(s \subseteq X)
-            THEN {"LsubOmitsMissingSubscribed"} ELSE {}
+      \* maildir: the subscriptions are lines of a file, a name with a newline
+      \* comes back as its pieces (a deviation of SUBSCRIBE, which shows here for
+      \* the names subscribed in the initial state)
+      dn == IF lsub /\ NLSplit \in Dev /\ SplitAll(s) # s THEN {NLSplit} ELSE {}
+      dm == IF lsub /\ OmitDev # {}
+               /\ (~(s \subseteq X) \/ (dn # {} /\ ~(SplitAll(s) \subseteq X)))
+            THEN OmitDev ELSE {}
   IN IF pat = <<>>
      THEN \* the root query: one \Noselect entry naming (a prefix of) the reference
           {R0(TRUE, {}, {}) @@
            [one |-> TRUE, must |-> {}, exact |-> {<<>>},
             may |-> {SubSeq(ref, 1, k) : k \in 0..Len(ref)},
             sel |-> {}, nosel |-> {SubSeq(ref, 1, k) : k \in 0..Len(ref)}]}
-     ELSE {ListVariant(IF "LsubOmitsMissingSubscribed" \in D THEN EI \cap X ELSE EI,
+     ELSE {LET E1 == IF NLSplit \in D THEN SplitAll(EI) ELSE EI IN
+           ListVariant(IF D \cap OmitDev # {} THEN E1 \cap X ELSE E1,
                        X, lsub, c[1], c[2], D)
-           : c \in Canons(ref, pat), D \in SUBSET (dl \cup dm)}
+           : c \in Canons(ref, pat), D \in SUBSET (dl \cup dm \cup dn)}
 
 \* the answer pymap gives: every applicable deviation, plain concatenation,
 \* everything optional is returned
@@ -181,17 +227,45 @@ Probe(m, s) == [list |-> ListAsIs(m, s, FALSE, <<>>, <<"*">>),
 Out(r, m, s) == [r |-> r, m |-> m, s |-> s]
 Same(r)      == Out(r, mbx, sub)
 No(tag)      == Same(R0(FALSE, tag, {}))
+\* a deviation that ends the connection: "* BYE", no tagged answer, nothing changes
+Bye(d)       == Same([R0(FALSE, {}, {d}) EXCEPT !.bye = TRUE])
+Mark(o, d)   == [o EXCEPT !.r.dev = @ \cup {d}]
+WithDev(outs, d) == {Mark(o, d) : o \in outs}
+
+\* maildir: the names that are a directory of the store
+Dirs == DOMAIN mbx \ {Inbox}
+\* the superiors that must be directories for a folder to be made: the
+\* filesystem layout nests the directories; the Maildir++ one is flat, but
+\* looks for all superiors except the direct parent
+NeededDirs(n) == IF Store = "fs" THEN Levels(n) ELSE DeepLevels(n)
+
+\* deviation (filesystem layout): an empty first part is lost on the way to the
+\* path, "/a" IS "a" for every command that resolves a mailbox
+FsAlias  == "MaildirFsLeadingDelimiterAlias"
+Alias(a) == FsAlias \in Dev /\ Len(a) > 1 /\ a[1] = SEP /\ a[2] # SEP
+Al(a)    == IF Alias(a) THEN Tail(a) ELSE a
+Aliased(F(_), a)     == F(a) \cup (IF Alias(a) THEN WithDev(F(Tail(a)), FsAlias) ELSE {})
+AliasedAsIs(F(_), a) == IF Alias(a) THEN Mark(F(Tail(a)), FsAlias) ELSE F(a)
 
 \* CREATE of a name without trailing delimiter.  "parents": the server also
-\* created the missing superior names (SHOULD, RFC 3501 6.3.3)
+\* created the missing superior names (SHOULD, RFC 3501 6.3.3); "unstorable":
+\* see Unstorable
 CreatePlain(n) ==
-  IF n = Inbox \/ n \in DOMAIN mbx THEN {No({})}
+  LET dx == "MaildirCreateExistingBye"
+      ds == "MaildirMissingSuperiorBye"
+  IN
+  IF n = Inbox THEN {No({})}
+  ELSE IF n \in DOMAIN mbx
+  THEN {No({})} \cup (IF dx \in Dev THEN {Bye(dx)} ELSE {})
   ELSE {LET new == {n} \cup P IN
         Out([R0(TRUE, IF P = {} THEN {} ELSE {"parents"}, {}) EXCEPT !.fresh = new],
             [x \in DOMAIN mbx \cup new |-> IF x \in new THEN 0 ELSE mbx[x]], sub)
         : P \in {{}, Levels(n) \ DOMAIN mbx}}
+       \cup (IF Unstorable(n) THEN {No({"unstorable"})} ELSE {})
+       \cup (IF ds \in Dev /\ ~Unstorable(n) /\ ~(NeededDirs(n) \subseteq Dirs)
+             THEN {Bye(ds)} ELSE {})
 
-CreateOutcomes(a) ==
+CreateOutcomes0(a) ==
   IF Len(a) > 1 /\ a[Len(a)] = SEP
   THEN \* "the name created is without the trailing hierarchy delimiter"
        LET base == Norm(Front(a))
@@ -205,33 +279,59 @@ CreateOutcomes(a) ==
                           sub)})
   ELSE CreatePlain(Norm(a))
 
-SameEffect(o, p) == o.r.ok = p.r.ok /\ o.m = p.m /\ o.s = p.s
+CreateOutcomes(a) == Aliased(CreateOutcomes0, a)
+
+SameEffect(o, p) == o.r.ok = p.r.ok /\ o.r.bye = p.r.bye /\ o.m = p.m /\ o.s = p.s
 \* prefer an allowed outcome with the same effect to a deviation
 Undeviate(o, outs) ==
   LET eq == {p \in outs : p.r.dev = {} /\ SameEffect(o, p)}
   IN IF eq = {} THEN o
      ELSE CHOOSE p \in eq : \A q \in eq : Cardinality(p.r.tag) <= Cardinality(q.r.tag)
 
-CreateAsIs(a) ==
-  LET outs == CreateOutcomes(a) IN
-  IF \E o \in outs : o.r.dev # {}
-  THEN Undeviate(CHOOSE o \in outs : o.r.dev # {}, outs)
-  ELSE CHOOSE o \in outs : o.r.tag = {}
+\* maildir refuses what it cannot store before it looks at anything else; the
+\* filesystem layout makes the missing superiors, the others leave them implied
+CreateAsIs0(a) ==
+  LET outs == CreateOutcomes0(a)
+      devs == {o \in outs : o.r.dev # {}}
+      uns  == {o \in outs : "unstorable" \in o.r.tag}
+      par  == {o \in outs : o.r.tag = {"parents"}}
+  IN IF uns # {} THEN CHOOSE o \in uns : TRUE
+     ELSE IF devs # {} THEN Undeviate(CHOOSE o \in devs : TRUE, outs)
+     ELSE IF Store = "fs" /\ par # {} THEN CHOOSE o \in par : TRUE
+     ELSE CHOOSE o \in outs : o.r.tag = {}
 
-DeleteOutcomes(a) ==
+CreateAsIs(a) == AliasedAsIs(CreateAsIs0, a)
+
+\* "haschildren": RFC 3501 6.3.4 lets a mailbox that has inferiors be deleted
+\* (it becomes \Noselect); a store that cannot keep a name without its mailbox
+\* refuses instead (RFC 5530 HASCHILDREN: "the server doesn't allow deletion of
+\* mailboxes with children"), and nothing changes
+DeleteOutcomes0(a) ==
   LET n == Norm(a) IN
   IF n = Inbox \/ n \notin DOMAIN mbx THEN {No({})}
   ELSE {Out([R0(TRUE, {}, {}) EXCEPT !.gone = {n}],
             [x \in DOMAIN mbx \ {n} |-> mbx[x]], sub)}
+       \cup (IF \E x \in DOMAIN mbx : Inferior(x, n) THEN {No({"haschildren"})} ELSE {})
 
-DeleteAsIs(a) == CHOOSE o \in DeleteOutcomes(a) : TRUE
+DeleteOutcomes(a) == Aliased(DeleteOutcomes0, a)
+
+DeleteAsIs0(a) ==
+  LET outs == DeleteOutcomes0(a)
+      hc   == {o \in outs : o.r.tag = {"haschildren"}}
+  IN IF Store = "fs" /\ hc # {} THEN CHOOSE o \in hc : TRUE
+     ELSE CHOOSE o \in outs : o.r.tag = {}
+
+DeleteAsIs(a) == AliasedAsIs(DeleteAsIs0, a)
 
 \* RENAME.  Inferiors of INBOX "are unaffected by a rename of INBOX".
-\* Latitude: refusing when the source is only a \Noselect level of hierarchy
-\* or the target name is one ("refuse"); moving subscriptions along
-\* ("submoved").  Not enabled (empty set) if a name longer than MaxLen
-\* would be built.
-RenameOutcomes(a, b) ==
+\* Latitude: refusing when the source is only a \Noselect level of hierarchy,
+\* the target name is one, or the target is an inferior of the source
+\* ("refuse"); refusing a target the store cannot hold ("unstorable"); moving
+\* subscriptions along ("submoved"); creating superiors of the target that do
+\* not exist (6.3.5 "SHOULD create any superior hierarchical names that are
+\* needed": "parents", any of them).  Not enabled (empty set) if a name longer
+\* than MaxLen would be built.
+RenameOutcomes0(a, b) ==
   LET f == Norm(a)  t == Norm(b)
       E == DOMAIN mbx
       infs == {n \in E : Inferior(n, f)}
@@ -239,72 +339,161 @@ RenameOutcomes(a, b) ==
       ideal == Mv(({f} \cap E) \cup (IF f = Inbox THEN {} ELSE infs))
       devmv == Mv(({f} \cap E) \cup infs)
       Conflict(mv) == \E x \in mv : x[2] \in E
-      Ok(mv, tag, dev, s2) ==
+      \* the effect of moving mv and creating the empty mailboxes P
+      Eff(r, mv, P, s2) ==
         LET src == {x[1] : x \in mv}  tgt == {x[2] : x \in mv}
-            fr  == IF f = Inbox THEN {Inbox} ELSE {}
-        IN Out([R0(TRUE, tag, dev) EXCEPT !.moved = mv, !.fresh = fr],
+            fr  == (IF f = Inbox /\ mv # {} THEN {Inbox} ELSE {}) \cup P
+        IN Out([r EXCEPT !.moved = mv, !.fresh = fr],
                [x \in ((E \ src) \cup tgt \cup fr) |->
                   IF x \in tgt THEN mbx[(CHOOSE y \in mv : y[2] = x)[1]]
                   ELSE IF x \in fr THEN 0 ELSE mbx[x]],
                s2)
       SubMoved(mv) == (sub \ {x[1] : x \in mv})
                       \cup {x[2] : x \in {y \in mv : y[1] \in sub}}
+      Sup == Levels(t) \ E
       OkSet(mv, dev) ==
-        {Ok(mv, {}, dev, sub)}
-        \cup (IF SubMoved(mv) # sub THEN {Ok(mv, {"submoved"}, dev, SubMoved(mv))} ELSE {})
-      d == "RenameInboxMovesInferiors"
+        UNION {LET pt == IF P = {} THEN {} ELSE {"parents"} IN
+               {Eff(R0(TRUE, pt, dev), mv, P, sub)}
+               \cup (IF SubMoved(mv) # sub
+                     THEN {Eff(R0(TRUE, pt \cup {"submoved"}, dev), mv, P, SubMoved(mv))}
+                     ELSE {})
+               : P \in SUBSET Sup}
+      dR == "RenameInboxMovesInferiors"
+      dI == "MaildirRenameInboxRefused"      dM == "MaildirRenameMissingSource"
+      dE == "MaildirRenameOntoExisting"      dS == "MaildirMissingSuperiorBye"
+      dV == "MaildirFsRenameIntoInferiorBye"
+      \* (maildir looks at the two names before anything else)
+      st == ~Unstorable(f) /\ ~Unstorable(t) /\ f # Inbox
+      \* maildir renames directory by directory without looking first.  In the
+      \* filesystem layout the mailbox with its inferiors is ONE directory; in
+      \* Maildir++ each is a directory of its own, and when one cannot be renamed
+      \* the others may or may not have been
+      Unchecked ==
+        IF f = t THEN {Same(R0(TRUE, {}, {dE}))}
+        ELSE IF Store = "fs" THEN {Bye(dE)}
+        ELSE {Eff([R0(mv = devmv, {}, {dE}) EXCEPT !.bye = (mv # devmv)], mv, {}, sub)
+              : mv \in {m \in SUBSET devmv :
+                          {x[2] : x \in m} \cap (E \ {x[1] : x \in m}) = {}}}
+      onto == IF dE \in Dev /\ st THEN Unchecked ELSE {}
   IN IF \E x \in devmv : Len(x[2]) > MaxLen THEN {}
      ELSE IF t = Inbox THEN {No({})}
-     ELSE IF f \notin E /\ infs = {} THEN {No({})}
-     ELSE IF t \in E THEN {No({})}
-     ELSE (IF Conflict(ideal) THEN {No({})}
-           ELSE OkSet(ideal, {})
-                \cup (IF f \notin E \/ t \in Implied(E) THEN {No({"refuse"})} ELSE {}))
-          \cup (IF d \in Dev /\ f = Inbox /\ infs # {} /\ ~Conflict(devmv)
-                THEN OkSet(devmv, {d}) ELSE {})
+     ELSE (IF Unstorable(t) THEN {No({"unstorable"})} ELSE {}) \cup
+          (IF f \notin E /\ infs = {}
+           THEN {No({})}
+                \cup (IF dM \in Dev /\ st
+                      THEN (IF Store = "fs" THEN {Bye(dM)} ELSE {Same(R0(TRUE, {}, {dM}))})
+                      ELSE {})
+           ELSE IF t \in E THEN {No({})} \cup onto
+           ELSE (IF Conflict(ideal) THEN {No({})} \cup onto
+                 ELSE OkSet(ideal, {})
+                      \cup (IF f \notin E \/ t \in Implied(E) \/ Inferior(t, f)
+                            THEN {No({"refuse"})} ELSE {})
+                      \cup (IF dI \in Dev /\ f = Inbox THEN {Same(R0(FALSE, {}, {dI}))} ELSE {})
+                      \cup (IF dV \in Dev /\ Store = "fs" /\ st /\ f \in E /\ Inferior(t, f)
+                            THEN {Bye(dV)} ELSE {})
+                      \cup (IF dS \in Dev /\ Store = "fs" /\ st /\ ~Inferior(t, f)
+                               /\ ~(Levels(t) \subseteq Dirs)
+                            THEN {Eff([R0(FALSE, {}, {dS}) EXCEPT !.bye = TRUE], {},
+                                      DeepLevels(t) \ E, sub)}
+                            ELSE {}))
+                \cup (IF dR \in Dev /\ f = Inbox /\ infs # {} /\ ~Conflict(devmv)
+                      THEN OkSet(devmv, {dR}) ELSE {}))
 
-RenameAsIs(a, b) ==
-  LET outs == RenameOutcomes(a, b)
-      t == Norm(b)
-  IN IF (\A o \in outs : ~o.r.ok) \/ t \in Implied(DOMAIN mbx)
-     THEN CHOOSE o \in outs : ~o.r.ok
-     ELSE IF \E o \in outs : o.r.dev # {}
-     THEN CHOOSE o \in outs : o.r.dev # {} /\ o.r.tag = {}
+RenameOutcomes(a, b) ==
+  RenameOutcomes0(a, b)
+  \cup (IF Alias(a) \/ Alias(b) THEN WithDev(RenameOutcomes0(Al(a), Al(b)), FsAlias) ELSE {})
+
+RenameAsIs0(a, b) ==
+  LET outs == RenameOutcomes0(a, b)
+      f == Norm(a)  t == Norm(b)
+      devs == {o \in outs : o.r.dev # {}}
+      nos  == {o \in outs : ~o.r.ok /\ ~o.r.bye /\ o.r.dev = {}}
+      par  == {o \in outs : o.r.ok /\ o.r.dev = {} /\ o.r.tag = {"parents"}}
+      \* (renaming one directory after the other: all of it when no target is in
+      \* the way, else - the order being the directory's - taken as none of it)
+      whole == {o \in devs : o.r.ok}
+      still == IF whole # {} THEN whole ELSE {o \in devs : o.r.moved = {}}
+  IN IF Store = "dict"
+     THEN IF (\A o \in outs : ~o.r.ok) \/ t \in Implied(DOMAIN mbx)
+          THEN CHOOSE o \in outs : ~o.r.ok
+          ELSE IF devs # {} THEN CHOOSE o \in devs : o.r.tag = {}
+          ELSE CHOOSE o \in outs : o.r.ok /\ o.r.tag = {}
+     ELSE IF Unstorable(f) \/ Unstorable(t) \/ (devs = {} /\ \A o \in outs : ~o.r.ok)
+     THEN CHOOSE o \in nos : TRUE
+     ELSE IF devs # {}
+     THEN Undeviate(IF still # {} THEN CHOOSE o \in still : TRUE ELSE CHOOSE o \in devs : TRUE,
+                    outs)
+     ELSE IF Store = "fs" /\ Inferior(t, f) THEN CHOOSE o \in nos : TRUE
+     ELSE IF Store = "fs" /\ par # {}
+     THEN CHOOSE o \in par : \A p \in par : p.r.fresh \subseteq o.r.fresh
      ELSE CHOOSE o \in outs : o.r.ok /\ o.r.tag = {}
 
-\* "A server MAY validate the mailbox argument to SUBSCRIBE"
+RenameEnabled(a, b) == RenameOutcomes0(Al(a), Al(b)) # {}
+RenameAsIs(a, b) ==
+  IF Alias(a) \/ Alias(b) THEN Mark(RenameAsIs0(Al(a), Al(b)), FsAlias) ELSE RenameAsIs0(a, b)
+
+\* "A server MAY validate the mailbox argument to SUBSCRIBE".  maildir keeps
+\* the subscriptions in a file of lines: a name with a line break is a name
+\* the store cannot hold ("unstorable").  The deviation writes it nevertheless
+\* and reads back the pieces.
 SubscribeOutcomes(a) ==
-  LET n == Norm(a) IN
+  LET n == Norm(a)
+      nl == Maildir /\ "n" \in Range(n)
+  IN
   {Out(R0(TRUE, {}, {}), mbx, sub \cup {n})}
   \cup (IF n \notin DOMAIN mbx THEN {No({"refuse"})} ELSE {})
+  \cup (IF nl THEN {No({"unstorable"})} ELSE {})
+  \cup (IF nl /\ NLSplit \in Dev
+        THEN {Out(R0(TRUE, {}, {NLSplit}), mbx, sub \cup Pieces(n))} ELSE {})
 
-SubscribeAsIs(a) == CHOOSE o \in SubscribeOutcomes(a) : o.r.ok
+SubscribeAsIs(a) ==
+  LET outs == SubscribeOutcomes(a)
+      devs == {o \in outs : o.r.dev # {}}
+      uns  == {o \in outs : o.r.tag = {"unstorable"}}
+  IN IF devs # {} THEN CHOOSE o \in devs : TRUE
+     ELSE IF uns # {} THEN CHOOSE o \in uns : TRUE
+     ELSE CHOOSE o \in outs : o.r.ok
 
 UnsubscribeOutcomes(a) ==
-  LET n == Norm(a) IN
+  LET n == Norm(a)
+      nl == Maildir /\ "n" \in Range(n)
+  IN
   {Out(R0(TRUE, {}, {}), mbx, sub \ {n})}
   \cup (IF n \notin sub THEN {No({"refuse"})} ELSE {})
+  \cup (IF nl THEN {No({"unstorable"})} ELSE {})
+  \cup (IF nl /\ NLSplit \in Dev THEN {Same(R0(TRUE, {}, {NLSplit}))} ELSE {})
 
-UnsubscribeAsIs(a) == CHOOSE o \in UnsubscribeOutcomes(a) : o.r.ok
+UnsubscribeAsIs(a) ==
+  LET outs == UnsubscribeOutcomes(a)
+      devs == {o \in outs : o.r.dev # {}}
+      uns  == {o \in outs : o.r.tag = {"unstorable"}}
+  IN IF devs # {} THEN Undeviate(CHOOSE o \in devs : TRUE, outs)
+     ELSE IF uns # {} THEN CHOOSE o \in uns : TRUE
+     ELSE CHOOSE o \in outs : o.r.ok
 
 \* STATUS and SELECT (the harness selects, fetches all UIDs, closes)
-QueryOutcomes(a) ==
+QueryOutcomes0(a) ==
   LET n == Norm(a) IN
   IF n \in DOMAIN mbx
   THEN {Same(R0(TRUE, {}, {}) @@ [n |-> mbx[n]])}
   ELSE {Same(R0(FALSE, {}, {}) @@ [n |-> 0])}
 
-QueryAsIs(a) == CHOOSE o \in QueryOutcomes(a) : TRUE
+QueryOutcomes(a) == Aliased(QueryOutcomes0, a)
+QueryAsIs0(a) == CHOOSE o \in QueryOutcomes0(a) : TRUE
+QueryAsIs(a)  == AliasedAsIs(QueryAsIs0, a)
 
 \* not enabled on a full mailbox
-AppendOutcomes(a) ==
+AppendOutcomes0(a) ==
   LET n == Norm(a) IN
   IF n \notin DOMAIN mbx THEN {No({})}
   ELSE IF mbx[n] >= MaxMsgs THEN {}
   ELSE {Out([R0(TRUE, {}, {}) EXCEPT !.app = {n}],
             [mbx EXCEPT ![n] = @ + 1], sub)}
 
-AppendAsIs(a) == CHOOSE o \in AppendOutcomes(a) : TRUE
+AppendOutcomes(a) == Aliased(AppendOutcomes0, a)
+AppendEnabled(a)  == AppendOutcomes0(Al(a)) # {}
+AppendAsIs0(a) == CHOOSE o \in AppendOutcomes0(a) : TRUE
+AppendAsIs(a)  == AliasedAsIs(AppendAsIs0, a)
 
 ListOutcomes(lsub, ref, pat) ==
   {Same(v) : v \in ListVariants(mbx, sub, lsub, ref, pat)}
@@ -345,12 +534,12 @@ NextRFC ==
 \* --- the outcome pymap is believed to produce (deterministic)
 Create(a)      == Apply(<<"create", a>>, CreateAsIs(a))
 Delete(a)      == Apply(<<"delete", a>>, DeleteAsIs(a))
-Rename(a, b)   == RenameOutcomes(a, b) # {} /\ Apply(<<"rename", a, b>>, RenameAsIs(a, b))
+Rename(a, b)   == RenameEnabled(a, b) /\ Apply(<<"rename", a, b>>, RenameAsIs(a, b))
 Subscribe(a)   == Apply(<<"subscribe", a>>, SubscribeAsIs(a))
 Unsubscribe(a) == Apply(<<"unsubscribe", a>>, UnsubscribeAsIs(a))
 Status(a)      == Apply(<<"status", a>>, QueryAsIs(a))
 Select(a)      == Apply(<<"select", a>>, QueryAsIs(a))
-AppendMsg(a)   == AppendOutcomes(a) # {} /\ Apply(<<"append", a>>, AppendAsIs(a))
+AppendMsg(a)   == AppendEnabled(a) /\ Apply(<<"append", a>>, AppendAsIs(a))
 List(ref, pat) == Apply(<<"list", ref, pat>>, ListOutAsIs(FALSE, ref, pat))
 Lsub(ref, pat) == Apply(<<"lsub", ref, pat>>, ListOutAsIs(TRUE, ref, pat))
 
@@ -364,9 +553,20 @@ NextAsIs ==
   \/ \E q \in ListQ : List(q[1], q[2])
   \/ \E q \in LsubQ : Lsub(q[1], q[2])
 
+\* The harness builds an initial state with CREATE (shorter names first) and
+\* SUBSCRIBE.  The filesystem layout cannot hold a name without its superiors
+\* (Maildir++ wants all but the direct parent while MaildirMissingSuperiorBye
+\* is open); a maildir that refuses to subscribe a name with a line break
+\* (no MaildirSubscriptionNewlineSplit) does not have it in the initial state.
+InitNames(S) ==
+  S \cup UNION {IF Store = "fs" THEN Levels(n)
+                ELSE IF Store = "pp" /\ "MaildirMissingSuperiorBye" \in Dev THEN DeepLevels(n)
+                ELSE {} : n \in S}
+InitSub(S) == IF Maildir /\ NLSplit \notin Dev THEN {n \in S : "n" \notin Range(n)} ELSE S
+
 Init == /\ \E i \in InitSets :
-             /\ mbx = [n \in i[1] \cup {Inbox} |-> 0]
-             /\ sub = i[2]
+             /\ mbx = [n \in InitNames(i[1]) \cup {Inbox} |-> 0]
+             /\ sub = InitSub(i[2])
         /\ last = Null
         /\ probe = Probe(mbx, sub)
 
@@ -525,6 +725,16 @@ MatchQuickInit  == MInit(MatchQuickNames)
 MatchFullNames  == MNames({"a", "b", "/", "*", "%", "n"}, 3) \cup MNames({"a", "/"}, 5)
 MatchFullQ      == MQueries({"a", "b", "/", "*", "%", "n"}, 3) \cup MQueries({"a", "/", "*", "%"}, 4)
 MatchFullInit   == MInit(MatchFullNames)
+
+\* names a store may be unable to hold
+n_u == <<"u">>   n_au == <<"a", "/", "u">>
+OddCreate == {n_u, n_a, n_au, n_Sa}
+OddName   == {n_u, n_a, n_Sa}
+OddRename == {<<n_a, n_u>>, <<n_u, n_a>>, <<n_Sa, n_b>>, <<n_b, n_Sa>>, <<n_b, n_a>>}
+OddSub    == {n_u, n_Sa}
+OddAppend == {n_Sa, n_au}
+OddListQ  == {<<n_e, n_st>>, <<n_e, n_Sa>>, <<n_e, <<"/", "%">>>>}
+OddLsubQ  == {<<n_e, n_st>>}
 
 \* a name with a leading delimiter
 LeadInit  == {<<{n_Sa}, {n_Sa}>>, <<{n_Sa, n_a}, {}>>, <<{<<"/", "a", "/", "b">>}, {}>>}
